@@ -95,8 +95,13 @@ func (in *inliner) unrollTablesIn(tpkg *types.Package, info *types.Info, fd *ast
 			ptrElem = true
 			et = pt.Elem()
 		}
+		plain := false
 		if _, isStruct := et.Underlying().(*types.Struct); !isStruct {
-			return true
+			// a table of plain values (`[][]string{a, b}`): the loop variable is read as a whole
+			if ptrElem {
+				return true
+			}
+			plain = true
 		}
 		eltText := in.text(at.Elt.Pos(), at.Elt.End())
 		if ptrElem {
@@ -111,6 +116,13 @@ func (in *inliner) unrollTablesIn(tpkg *types.Package, info *types.Info, fd *ast
 		for _, e := range lit.Elts {
 			if _, isKV := e.(*ast.KeyValueExpr); isKV {
 				return true // indexed elements
+			}
+			if plain {
+				if !callFree(e) {
+					return true
+				}
+				elems = append(elems, in.text(e.Pos(), e.End()))
+				continue
 			}
 			var cl *ast.CompositeLit
 			switch v := ast.Unparen(e).(type) {
@@ -218,8 +230,21 @@ func (in *inliner) unrollTablesIn(tpkg *types.Package, info *types.Info, fd *ast
 					case *ast.LabeledStmt:
 						okBody = false
 					case *ast.BranchStmt:
-						if y.Tok == token.GOTO || y.Label != nil {
+						if y.Tok == token.GOTO || y.Tok == token.FALLTHROUGH {
 							okBody = false
+						} else if y.Label != nil {
+							// a labelled break / continue leaves for a statement outside this (unlabelled) loop: it does the
+							// same in a copy of the body - unless the label sits inside the body
+							inside := false
+							ast.Inspect(rs.Body, func(z ast.Node) bool {
+								if ls, isL := z.(*ast.LabeledStmt); isL && ls.Label.Name == y.Label.Name {
+									inside = true
+								}
+								return !inside
+							})
+							if inside {
+								okBody = false
+							}
 						} else if !inner && (y.Tok == token.BREAK || y.Tok == token.CONTINUE) {
 							okBody = false
 						}
@@ -255,6 +280,28 @@ func (in *inliner) unrollTablesIn(tpkg *types.Package, info *types.Info, fd *ast
 							return false
 						}
 					case *ast.Ident:
+						if info.Uses[y] == vobj && plain {
+							switch pp := p.parents[y].(type) {
+							case *ast.AssignStmt:
+								for _, l := range pp.Lhs {
+									if l == ast.Expr(y) {
+										okBody = false
+									}
+								}
+							case *ast.UnaryExpr:
+								if pp.Op == token.AND {
+									okBody = false
+								}
+							case *ast.IncDecStmt:
+								okBody = false
+							case *ast.RangeStmt:
+								if pp.Key == ast.Expr(y) || pp.Value == ast.Expr(y) {
+									okBody = false
+								}
+							}
+							uses = append(uses, y)
+							return okBody
+						}
 						if info.Uses[y] == vobj {
 							sel, isSel := p.parents[y].(*ast.SelectorExpr)
 							if !isSel || sel.X != ast.Expr(y) {
@@ -307,9 +354,12 @@ func (in *inliner) unrollTablesIn(tpkg *types.Package, info *types.Info, fd *ast
 			anyUse = anyUse || le.used
 		}
 		for i, e := range elems {
-			if anyUse {
+			switch {
+			case plain:
+				fmt.Fprintf(&def, "var %s %s = %s\n_ = %s\n", names[i], eltText, e, names[i])
+			case anyUse:
 				fmt.Fprintf(&def, "%s := %s\n", names[i], e)
-			} else {
+			default:
 				fmt.Fprintf(&def, "%s := %s\n_ = %s\n", names[i], e, names[i])
 			}
 		}
